@@ -591,7 +591,7 @@ def observe(q, c):
             step["exc"] = b
             excs[b] += 1
         bare_set = e[0] == "set" and st == "ok" and e[2][0] == "num"
-        for ver in versions:
+        for ver in versions[-6:]:      # the six most recent ones (keeps long histories linear)
             now = snap(ver[1])
             if now != ver[2]:
                 if bare_set:
